@@ -151,9 +151,9 @@ prop("C10", level="exploration", bounded=True,
           "object, follow-up mutation of each side invisible to the other; fiber-level + * / // splits over all depth-1 pairs; every read-only family "
           "(reads, iteration, co-iteration, ==, queries, printing, YAML, uncompress, footprints) and image rendering (twice, byte-identical). "
           "Proved core (frames as ordinary pyvc obligations: every heap write on every path is to a local, a fresh object or a listed bookkeeping field): "
-          "getPayload, getPosition, iterRange, the four merge iterators, Payload/CoordPayload value-returning operators.",
+          "getPayload, getPosition, iterRange, Payload value-returning operators (the merge iterators' frames are discharged under C04).",
      note="Exploration level. pickle/copy, PIL rendering and YAML are outside pyvc; their effect is observed at run time only.",
-     also=["Fiber.getPayload", "Fiber.getPosition", "iterRange", "_iterator.__iter__", "Payload.__add__", "Payload.__mul__"],
+     also=["Fiber.getPayload", "Fiber.getPosition", "iterRange", "Payload.__add__", "Payload.__mul__"],
      trusted_base=["pickle/copy (observed at run time only)"])
 
 prop("C08", level="exploration", bounded=True,
